@@ -223,3 +223,227 @@ def mk_str(t):
 def mk_float(t):
     t = z3.simplify(t)
     return SFloat(t)
+
+
+_FLOOR_CACHE = {}
+
+
+def _rat(t):
+    return fractions.Fraction(t.numerator_as_long(), t.denominator_as_long())
+
+
+def _ite_leaves(t, limit=32):
+    """[(conditions, ite-free term)] by distributing arithmetic over if-then-else."""
+    if not z3.is_app(t):
+        return [([], t)]
+    k = t.decl().kind()
+    if k == z3.Z3_OP_ITE:
+        c, a, b = t.children()
+        out = [([c] + cs, x) for cs, x in _ite_leaves(a, limit)] + \
+              [([z3.Not(c)] + cs, x) for cs, x in _ite_leaves(b, limit)]
+        return out if len(out) <= limit else [([], t)]
+    if k in (z3.Z3_OP_ADD, z3.Z3_OP_MUL, z3.Z3_OP_SUB, z3.Z3_OP_UMINUS, z3.Z3_OP_DIV, z3.Z3_OP_TO_REAL):
+        parts = [_ite_leaves(ch, limit) for ch in t.children()]
+        if all(len(p) == 1 for p in parts):
+            return [([], t)]
+        combos = [([], [])]
+        for p in parts:
+            combos = [(cs + cs2, xs + [x]) for cs, xs in combos for cs2, x in p]
+            if len(combos) > limit:
+                return [([], t)]
+        return [(cs, t.decl()(*xs)) for cs, xs in combos]
+    return [([], t)]
+
+
+def _as_scaled_int(t):
+    """t == scale * ToReal(i) + offset  with rational scale/offset -> (i, scale, offset) or None."""
+    t = z3.simplify(t)
+    if z3.is_rational_value(t):
+        return (None, fractions.Fraction(0), _rat(t))
+    if not z3.is_app(t):
+        return None
+    k = t.decl().kind()
+    if k == z3.Z3_OP_TO_REAL:
+        return (t.arg(0), fractions.Fraction(1), fractions.Fraction(0))
+    if k == z3.Z3_OP_UMINUS:
+        r = _as_scaled_int(t.arg(0))
+        return None if r is None else (r[0], -r[1], -r[2])
+    if k == z3.Z3_OP_MUL and t.num_args() == 2:
+        a, b = t.children()
+        if z3.is_rational_value(b):
+            a, b = b, a
+        if z3.is_rational_value(a):
+            r = _as_scaled_int(b)
+            return None if r is None else (r[0], r[1] * _rat(a), r[2] * _rat(a))
+        return None
+    if k == z3.Z3_OP_DIV:
+        a, b = t.children()
+        if z3.is_rational_value(b) and _rat(b) != 0:
+            r = _as_scaled_int(a)
+            return None if r is None else (r[0], r[1] / _rat(b), r[2] / _rat(b))
+        return None
+    if k == z3.Z3_OP_ADD:
+        cur = (None, fractions.Fraction(0), fractions.Fraction(0))
+        for ch in t.children():
+            r = _as_scaled_int(ch)
+            if r is None:
+                return None
+            if r[0] is not None:
+                if cur[0] is not None:
+                    return None
+                cur = (r[0], r[1], cur[2] + r[2])
+            else:
+                cur = (cur[0], cur[1], cur[2] + r[2])
+        return cur
+    return None
+
+
+def _floor_leaf(ex, t):
+    t = z3.simplify(t)
+    if z3.is_rational_value(t):
+        fr = _rat(t)
+        return z3.IntVal(fr.numerator // fr.denominator)
+    r = _as_scaled_int(t)
+    if r is not None and r[0] is not None:
+        i, scale, off = r
+        # floor((p*i)/q + a/b) = floor((p*b*i + a*q) / (q*b)) : integer division by a positive constant
+        den = scale.denominator * off.denominator
+        num = scale.numerator * off.denominator * i + off.numerator * scale.denominator
+        if den == 1:
+            return z3.simplify(num)
+        return z3.simplify(num / z3.IntVal(den))        # z3 Int division by a positive constant = floor
+    if _has_symbolic_division(t):
+        # nonlinear: z3's built-in to_int does better here than a definitional variable
+        return z3.ToInt(t)
+    cache = ex.floor_cache
+    key = t.get_id()
+    hit = cache.get(key)
+    if hit is not None and hit[0].eq(t):
+        k = hit[1]
+    else:
+        # deterministic name: position in this path (re-executions agree)
+        name = f'{ex.prefix}floor!{len(cache) + 1}'
+        k = z3.Int(name)
+        cache[key] = (t, k)
+        FLOOR_DEFS[name] = (t, k)
+    ex.add_axiom(z3.And(z3.ToReal(k) <= t, t < z3.ToReal(k) + 1))
+    # floor(x / s) with a non-constant divisor: the same fact multiplied out (no division),
+    # which turns bracket obligations into linear reasoning over the products
+    if z3.is_app(t) and t.decl().kind() == z3.Z3_OP_DIV and not z3.is_rational_value(t.arg(1)):
+        x, d = t.arg(0), t.arg(1)
+        kr = z3.ToReal(k)
+        ex.add_axiom(z3.Implies(d > 0, z3.And(d * kr <= x, x < d * kr + d)))
+        ex.add_axiom(z3.Implies(d < 0, z3.And(d * kr >= x, x > d * kr + d)))
+    return k
+
+
+def _has_symbolic_division(t):
+    todo = [t]
+    seen = 0
+    while todo and seen < 200:
+        x = todo.pop()
+        seen += 1
+        if z3.is_app(x):
+            if x.decl().kind() == z3.Z3_OP_DIV and not z3.is_rational_value(x.arg(1)):
+                return True
+            if x.decl().kind() == z3.Z3_OP_MUL and sum(1 for a in x.children() if not z3.is_rational_value(a)) > 1:
+                return True
+            todo.extend(x.children())
+    return False
+
+
+def _factors(t):
+    """flattened multiplicative factors of t (through nested * and unary minus)"""
+    t = z3.simplify(t)
+    if z3.is_app(t):
+        k = t.decl().kind()
+        if k == z3.Z3_OP_MUL:
+            out = []
+            for a in t.children():
+                out.extend(_factors(a))
+            return out
+        if k == z3.Z3_OP_UMINUS:
+            return [z3.RealVal(-1)] + _factors(t.arg(0))
+    return [t]
+
+
+def _push_to_real(t):
+    """to_real(ite(c, a, b)) -> ite(c, to_real(a), to_real(b)); to_real(-a) -> -to_real(a)"""
+    if z3.is_app(t) and t.decl().kind() == z3.Z3_OP_TO_REAL:
+        a = t.arg(0)
+        if z3.is_app(a) and a.decl().kind() == z3.Z3_OP_ITE:
+            return z3.If(a.arg(0), _push_to_real(z3.ToReal(a.arg(1))), _push_to_real(z3.ToReal(a.arg(2))))
+        if z3.is_app(a) and a.decl().kind() == z3.Z3_OP_UMINUS:
+            return -_push_to_real(z3.ToReal(a.arg(0)))
+        if z3.is_app(a) and a.decl().kind() == z3.Z3_OP_MUL and a.num_args() == 2 and z3.is_int_value(a.arg(0)):
+            return z3.RealVal(a.arg(0).as_long()) * _push_to_real(z3.ToReal(a.arg(1)))
+    return t
+
+
+def _direct_multiple(rt, st):
+    need = [f for f in _factors(st) if not (z3.is_rational_value(f) and abs(_rat(f)) == 1)]
+    have = _factors(rt)
+    for f in need:
+        for i, h in enumerate(have):
+            if h.eq(f):
+                del have[i]
+                break
+        else:
+            return False
+    return all(_is_integral(h) for h in have)
+
+
+def is_int_multiple(rt, st, depth=0):
+    """Syntactic: is the Real term rt of the form (+/-) st * <integral factors> (through ite)?"""
+    rt = _push_to_real(z3.simplify(rt))
+    st = _push_to_real(z3.simplify(st))
+    if z3.is_rational_value(rt) and rt.numerator_as_long() == 0:
+        return True
+    if not z3.is_app(rt) or depth > 8:
+        return False
+    if _direct_multiple(rt, st):
+        return True
+    if rt.decl().kind() == z3.Z3_OP_ITE:
+        return is_int_multiple(rt.arg(1), st, depth + 1) and is_int_multiple(rt.arg(2), st, depth + 1)
+    if z3.is_app(st) and st.decl().kind() == z3.Z3_OP_ITE:
+        return is_int_multiple(rt, st.arg(1), depth + 1) and is_int_multiple(rt, st.arg(2), depth + 1)
+    return False
+
+
+def _is_integral(t):
+    t = z3.simplify(t)
+    if z3.is_rational_value(t):
+        return t.denominator_as_long() == 1
+    if z3.is_app(t):
+        k = t.decl().kind()
+        if k == z3.Z3_OP_TO_REAL:
+            return True
+        if k in (z3.Z3_OP_ITE,):
+            return _is_integral(t.arg(1)) and _is_integral(t.arg(2))
+        if k in (z3.Z3_OP_MUL, z3.Z3_OP_ADD, z3.Z3_OP_UMINUS, z3.Z3_OP_SUB):
+            return all(_is_integral(a) for a in t.children())
+    return False
+
+
+FLOOR_DEFS = {}      # name -> (term, var) of the path being executed (latest definition wins)
+
+
+def floor_int(ex, t):
+    """floor of a Real term as an Int term.
+
+    to_int/ite nests time out in z3 and cvc5, so: (1) if-then-else is distributed
+    to the outside, (2) a leaf of the form (p/q)*to_real(i) + c becomes an integer
+    division by a positive constant (pure LIA), (3) any other leaf gets a fresh
+    integer k with the definitional axiom k <= t < k+1."""
+    t = z3.simplify(t)
+    leaves = _ite_leaves(t)
+    if len(leaves) == 1:
+        return _floor_leaf(ex, leaves[0][1])
+    out = None
+    for conds, leaf in reversed(leaves):
+        fl = _floor_leaf(ex, leaf)
+        if out is None:
+            out = fl
+        else:
+            out = z3.If(z3.And(*conds) if len(conds) > 1 else conds[0], fl, out)
+    return z3.simplify(out)
